@@ -278,30 +278,21 @@ def handle : List Sx → Sx
           | some arr => outT arr.shape (cellSx true) (collect arr.toList)
           | none => .atom "ValueError"
         | none => .atom "ValueError"
-      -- a shapeless zero divisor is replaced by the replacement OBJECT (mask_ops.py:46-55),
-      -- which has no derivatives
-      let dropped := y.shape.isEmpty && Num.isZero (q8 y.vals[0]!)
-      .list [r, da, if dropped then .atom "no-deriv" else db]
+      -- (the shapeless branch of mask_where now assigns into a copy of self, so a shapeless zero
+      --  divisor keeps its derivatives: no special case any more)
+      .list [r, da, db]
     | _, _, _, _ => err "operand"
   | [.atom "recip_d", .list [], .list [x, dx]] =>
     match parseOpd x, parseOpd dx with
     | some x, some dx => .list [run1 (reciprocal false) true x, run2 reciprocalDeriv true dx x]
     | _, _ => err "operand"
-  -- shapeless branch of mask_where (mask_ops.py:46-55): the replacement object is returned, so a
-  -- shapeless operand outside the domain loses its derivatives (`no_negs._derivs_` is empty)
   | [.atom "log_d", .list [], .list [x, dx]] =>
     match parseOpd x, parseOpd dx with
-    | some x, some dx =>
-      let dropped := x.shape.isEmpty && Num.le (q8 x.vals[0]!) (0 : Rat)
-      .list [run1 (log fns true) false x,
-             if dropped then .atom "no-deriv" else run2 logDeriv true dx x]
+    | some x, some dx => .list [run1 (log fns true) false x, run2 logDeriv true dx x]
     | _, _ => err "operand"
   | [.atom "sqrt_d", .list [], .list [x, dx]] =>
     match parseOpd x, parseOpd dx with
-    | some x, some dx =>
-      let dropped := x.shape.isEmpty && Num.lt (q8 x.vals[0]!) (0 : Rat)
-      .list [run1 (sqrt fns true) false x,
-             if dropped then .atom "no-deriv" else run2 (sqrtDeriv fns) false dx x]
+    | some x, some dx => .list [run1 (sqrt fns true) false x, run2 (sqrtDeriv fns) false dx x]
     | _, _ => err "operand"
   | [.atom "arcsin_d", .list [ac], .list [x, dx]] =>
     match bool? ac, parseOpd x, parseOpd dx with
